@@ -16,6 +16,7 @@ from __future__ import annotations
 
 import itertools
 import json
+import os
 import random
 from concurrent.futures import ProcessPoolExecutor, ThreadPoolExecutor
 
@@ -42,11 +43,14 @@ def mc_cfg(dom, maxlen, attr, loops, fill_always=False, maxn=4):
             "SPECIFICATION Spec\n" + "".join(f"INVARIANT {i}\n" for i in INVS))
 
 
-def model_check(ck):
-    quick = ck.tier == "quick"
+def model_check(tier):
+    """Returns ([(TLCResult, label)], extra) -- added to the Check by the caller (this runs in a
+    background thread)."""
+    quick = tier == "quick"
+    done, extra = [], {}
     runs = [  # (name, domain, MaxLen, Attr, explore the loops)
         ("ints", "DomInts", 5 if quick else 6, "AttrNone", True),
-        ("strs", "DomStrs", 4 if quick else 5, "AttrNone", not quick),
+        ("strs", "DomStrs", 3 if quick else 5, "AttrNone", True),
         ("recs_x", "DomRecs", 3 if quick else 4, "AttrX", False),
         ("recs_yx", "DomRecs", 3 if quick else 4, "AttrYX", False),
     ]
@@ -54,30 +58,44 @@ def model_check(ck):
         runs += [("str2", "DomStr2", 5, "AttrNone", False), ("recs_xy", "DomRecs", 4, "AttrXY", False)]
     def one(run):
         name, dom, ml, attr, loops = run
+        if name == "strs" and quick:      # this run also dumps its graph (vacuity guard below)
+            return run, cov()
         return run, core.run_tlc(PID, "SeqFiltersMC", mc_cfg(dom, ml, attr, loops), name=f"mc_{name}",
                                  workers=4, timeout=1500, heap="3g")
 
-    with ThreadPoolExecutor(max_workers=6) as ex:
+    def cov():
+        # vacuity guard on a small instance: every action labels an edge of the state graph
+        # (-coverage runs out of memory on the recursive operators of this module)
+        return core.run_tlc(PID, "SeqFiltersMC", mc_cfg("DomStrs", 3, "AttrNone", True, maxn=3), name="mc_strs" if quick else "mc_cov",
+                            workers=1, timeout=600, heap="2g", args=["-dump", "dot,actionlabels", "graph.dot"])
+
+    def selftest():
+        # the fill rule of the pinned code (fill whenever slice_number >= slices_with_extra)
+        # must violate the documented slice contract in the model
+        return core.run_tlc(PID, "SeqFiltersMC", mc_cfg("DomStrs", 2, "AttrNone", True, fill_always=True),
+                            name="mc_selftest", workers=1, timeout=600, heap="1g")
+
+    with ThreadPoolExecutor(max_workers=8) as ex:
+        fself = ex.submit(selftest)
+        fcov = None if quick else ex.submit(cov)
         for (name, dom, ml, attr, loops), r in ex.map(one, runs):
-            ck.add_tlc(r, f"SeqFiltersMC {dom} len<={ml} attr={attr}")
-    # vacuity guard on a small instance: every action labels an edge of the state graph
-    # (-coverage runs out of memory on the recursive operators of this module)
-    r = core.run_tlc(PID, "SeqFiltersMC", mc_cfg("DomInts", 2, "AttrNone", True, maxn=2), name="mc_cov",
-                     workers=1, timeout=600, heap="1g", args=["-dump", "dot,actionlabels", "graph.dot"])
-    ck.add_tlc(r, "SeqFiltersMC action-label run DomInts len<=2")
+            done.append((r, f"SeqFiltersMC {dom} len<={ml} attr={attr}"))
+            if name == "strs" and quick:
+                rcov = r
+        rs = fself.result()
+        if fcov is not None:
+            rcov = fcov.result()
+    r = rcov
     _, edges, _ = core.parse_dot(r.dir / "graph.dot")
     labels = {core.parse_label(e[2])[0] for e in edges}
     missing = {"Grow", "StartBatch", "BatchFlush", "BatchTake", "BatchEnd", "StartSlice", "SliceStep"} - labels
-    ck.extra["actions_covered"] = sorted(labels)
+    extra["actions_covered"] = sorted(labels)
     if missing:
         raise core.MachineryError(f"vacuous model: actions never taken: {sorted(missing)}")
-    # self-test: the fill rule of the pinned code (fill whenever slice_number >=
-    # slices_with_extra) must violate the documented slice contract in the model
-    r = core.run_tlc(PID, "SeqFiltersMC", mc_cfg("DomStrs", 2, "AttrNone", True, fill_always=True),
-                     name="mc_selftest", workers=2, timeout=600, heap="1g")
-    ck.extra["selftest_slice_fill_always_rejected_by_TLC"] = "C22_SliceLoop" in r.invariant_violated
-    if "C22_SliceLoop" not in r.invariant_violated:
+    extra["selftest_slice_fill_always_rejected_by_TLC"] = "C22_SliceLoop" in rs.invariant_violated
+    if "C22_SliceLoop" not in rs.invariant_violated:
         raise core.MachineryError("self-test failed: SliceFillAlways=TRUE did not violate C22_SliceLoop")
+    return done, extra
 
 
 # ---------------------------------------------------------------------------
@@ -134,7 +152,10 @@ def gen_cases(tier, seed):
         return rnd.sample(it, k)
 
     # ---- batch / slice: partition arithmetic over every length x size x fill
-    for xs in seqs(INTS, 5 if quick else 6):
+    part_inputs = list(seqs(INTS, 4 if quick else 6))
+    if quick:
+        part_inputs += [[0, 1, 2, 0, 1], [2, 2, 1, 0, 0], [0, 1, 2, 2, 1, 0], [0, 1, 2, 0, 1, 2, 0]]
+    for xs in part_inputs:
         for n in (1, 2, 3, 4) if len(xs) < 5 else (2, 3, 4, 5):
             for fill in (None, "f", 0):
                 if quick and len(xs) >= 4 and fill == 0 and n not in (2, 3):
@@ -170,7 +191,7 @@ def gen_cases(tier, seed):
                 (recs_nested(), ["x.y", "z,x.y", "x.y,z"]), (recs_tuple(), [0, "0", "1,0", "0,1"])]
     for dom, attrs in rec_doms:
         pool = list(seqs(dom, L4 if isinstance(dom[0], dict) and "y" in dom[0] else L3))
-        for xs in (pool if not quick else sample(pool, 260)):
+        for xs in (pool if not quick else sample(pool, 60)):
             for attr in attrs:
                 for rev in (False, True):
                     for cs in (False, True):
@@ -187,7 +208,7 @@ def gen_cases(tier, seed):
             add(case("min", xs, a, "xs|min(case_sensitive=cs)", kw={"case_sensitive": "cs"}))
             add(case("max", xs, a, "xs|max(cs)", pos=["cs"]))
     for dom, attrs in rec_doms:
-        for xs in sample(seqs(dom, L4), 200 if quick else 1200):
+        for xs in sample(seqs(dom, L4), 40 if quick else 1200):
             for attr in [a for a in attrs if not (isinstance(a, str) and "," in a)]:
                 for cs in (False, True):
                     a = {"cs": cs, "attr": attr}
@@ -200,17 +221,25 @@ def gen_cases(tier, seed):
     holes = [{"y": 0}, {"y": 1}]
     for dom, attrs in rec_doms:
         single = [a for a in attrs if not (isinstance(a, str) and "," in a)]
-        for xs in sample(seqs(dom, L4), 400 if quick else 1555):
+        for xs in sample(seqs(dom, L4), 80 if quick else 1555):
             for attr in single:
                 for cs in (False, True):
                     a = {"attr": attr, "dflt": None, "cs": cs}
                     add(case("groupby", xs, a, "xs|groupby(attr, case_sensitive=cs)", pos=["attr"],
                              kw={"case_sensitive": "cs"}))
-    for xs in sample(seqs(recs_dict()[:4] + holes, L4), 150 if quick else 800):
+    for xs in sample(seqs(recs_dict()[:4] + holes, L4), 80 if quick else 800):
         for cs in (False, True):
             for dflt in ("A", "b"):
                 add(case("groupby", xs, {"attr": "x", "dflt": dflt, "cs": cs},
                          "xs|groupby(attr, dflt, cs)", pos=["attr", "dflt", "cs"]))
+    # a default also covers a missing *intermediate* attribute of a dotted path
+    for xs in sample(seqs(recs_nested()[:3] + [{"z": 0}, {"x": {}, "z": 1}], 3), 60 if quick else 156):
+        for cs in (False, True):
+            add(case("groupby", xs, {"attr": "x.y", "dflt": "A", "cs": cs},
+                     "xs|groupby(attr, default=dflt, case_sensitive=cs)", pos=["attr"],
+                     kw={"default": "dflt", "case_sensitive": "cs"}))
+        add(case("map", xs, {"attr": "x.y", "dflt": "D"}, "xs|map(attribute=attr, default=dflt)",
+                 kw={"attribute": "attr", "default": "dflt"}, lazy=True))
     for xs in sample(seqs(INTS, 3), 20):    # groupby on plain pairs by index
         pairs = [(v, i) for i, v in enumerate(xs)]
         add(case("groupby", pairs, {"attr": 0, "dflt": None, "cs": False}, "xs|groupby(attr)", pos=["attr"]))
@@ -254,7 +283,7 @@ def gen_cases(tier, seed):
         for attr in ("x", "y"):
             add(case("join", xs, {"d": ", ", "attr": attr}, "xs|join(d, attribute=attr)", pos=["d"],
                      kw={"attribute": "attr"}))
-    for xs in seqs(INTS, 5 if quick else 6):
+    for xs in seqs(INTS, 4 if quick else 6):
         for start in (0, 5):
             a = {"attr": None, "start": start}
             add(case("sum", xs, a, "xs|sum(start=start)" if start else "xs|sum",
@@ -319,7 +348,7 @@ def gen_cases(tier, seed):
                 else:
                     add(case(f, xs, a, f"xs|{f}(name, arg)", pos=["name", "arg"], name=name, lazy=True,
                              names=["name"]))
-    for xs in seqs([0, 1, None, "a", ""], 3):
+    for xs in seqs([0, 1, None, "a", ""], 2 if quick else 3):
         for name in ("", "none", "defined", "string", "number"):
             for f in ("select", "reject"):
                 if name == "":
@@ -333,7 +362,7 @@ def gen_cases(tier, seed):
                   ("x", "ne", "A"), ("x", "in", ["a", "b"]), ("x", "lower", None), ("y", "lt", 1),
                   ("x", "defined", None), ("q", "defined", None), ("q", "undefined", None), ("q", "", None)]
     for dom in (recs_dict(), recs_obj()):
-        for xs in sample(seqs(dom, L4), 250 if quick else 1555):
+        for xs in sample(seqs(dom, L4), 40 if quick else 1555):
             for attr, name, arg in attr_tests:
                 for f in ("selectattr", "rejectattr"):
                     a = {"attr": attr, "arg": arg}
@@ -349,6 +378,9 @@ def gen_cases(tier, seed):
         for f in ("selectattr", "rejectattr"):
             add(case(f, xs, {"attr": "x.y", "arg": "a"}, f"xs|{f}(attr, name, arg)", pos=["attr", "name", "arg"],
                      name="eq", lazy=True, names=["name"]))
+    full_every = 6 if quick else 2
+    for i, c in enumerate(cases):
+        c["pick"] = None if i % full_every == 0 else i
     return cases
 
 
@@ -380,13 +412,24 @@ def driver():
 
 
 def modes_of(drv, c):
+    """Every mode the case is meaningful in; cases marked `some` run the sync/template/list
+    baseline plus three modes picked round-robin by the case index (every mode of every
+    filter is still exercised thousands of times per run)."""
     asyncv = drv.is_async_variant(c["f"])
+    allm = []
     for envk in ("sync", "async"):
         for via in ("tmpl", "call"):
             for kind in c["kinds"]:
                 if kind == "agen" and not (asyncv and envk == "async"):
                     continue
-                yield envk, via, kind
+                allm.append((envk, via, kind))
+    pick = c.get("pick")
+    if pick is None or len(allm) <= 4:
+        return allm
+    n = len(allm)
+    stride = n // 3 + 1
+    idx = {0} | {(pick + j * stride) % n for j in range(3)}
+    return [allm[i] for i in sorted(idx)]
 
 
 def run_mode(drv, c, envk, via, kind):
@@ -427,9 +470,12 @@ def observe_case(c):
     return list(groups.values()), nruns
 
 
-def _observe_chunk(chunk):
+_CASES = []          # inherited by the forked workers (no pickling of the inputs)
+
+
+def _observe_chunk(span):
     recs, n = [], 0
-    for c in chunk:
+    for c in _CASES[span[0]:span[1]]:
         r, k = observe_case(c)
         recs += r
         n += k
@@ -437,12 +483,15 @@ def _observe_chunk(chunk):
 
 
 def observe_all(cases):
+    global _CASES
+    _CASES = cases
     recs, nruns = [], 0
-    parts = list(core.chunks(cases, 400))
-    with ProcessPoolExecutor(max_workers=12) as ex:
-        for r, n in ex.map(_observe_chunk, parts):
+    spans = [(i, min(i + 500, len(cases))) for i in range(0, len(cases), 500)]
+    with ProcessPoolExecutor(max_workers=10) as ex:
+        for r, n in ex.map(_observe_chunk, spans):
             recs += r
             nruns += n
+    _CASES = []
     return recs, nruns
 
 
@@ -477,10 +526,20 @@ def report(ck, rejected):
 
 def run(ck):
     fu.load_own_findings(ck, PID)
-    model_check(ck)
-    cases = gen_cases(ck.tier, ck.seed)
-    recs, nruns = observe_all(cases)
-    rejected = fu.tlc_validate(ck, "SeqFiltersTrace", recs, batch=5000, parallel=8)
+    only = [f for f in os.environ.get("JV_FILTERS", "").split(",") if f]   # development aid
+    with ThreadPoolExecutor(max_workers=1) as bg:
+        # TLC on the spec itself, concurrently with the observation of the real code
+        mc = bg.submit((lambda t: ([], {})) if only else model_check, ck.tier)
+        cases = gen_cases(ck.tier, ck.seed)
+        if only:
+            cases = [c for c in cases if c["f"] in only]
+            ck.exhaustive = False
+        recs, nruns = observe_all(cases)
+        rejected = fu.tlc_validate(ck, "SeqFiltersTrace", recs, batch=7000, parallel=4)
+        done, extra = mc.result()
+    for r, label in done:
+        ck.add_tlc(r, label)
+    ck.extra.update(extra)
     report(ck, rejected)
     ck.traces += len(recs)
     ck.evaluations += nruns
@@ -492,7 +551,7 @@ def run(ck):
     ck.extra["distinct_observations_validated_by_TLC"] = len(recs)
     ck.extra["records_per_filter"] = per
     ck.extra["excluded_shapes"] = EXCLUDED
-    ck.exhaustive = ck.tier != "quick"
+    ck.exhaustive = ck.exhaustive and ck.tier != "quick"
     ck.extra["exhaustive_note"] = ("batch/slice/sort/unique/min/max/sum/select over every sequence up to the bound; "
                                    "record-valued inputs and dictsort are seeded samples in the quick tier")
     for r in recs[:: max(1, len(recs) // 4)][:4]:
@@ -510,7 +569,8 @@ def replay(ck, rec):
     fu.load_own_findings(ck, PID)
     c0 = rec["case"]
     if c0.get("kind") == "spec-invariant":
-        model_check(ck)
+        for r, label in model_check(ck.tier)[0]:
+            ck.add_tlc(r, label)
         return
     r = c0["record"]
     how = r["how"]
